@@ -34,6 +34,8 @@ pub fn requirements(tier: Tier) -> Vec<(&'static str, u64)> {
         ("other-spec-types-refused", 25),
         ("padded-forms-refused", 100),
         ("random-strings", 10_000),
+        ("long-strings-with-name-prefix", 1_000),
+        ("joined-names", 500),
         ("accepted-in-enumerated-space", 7),
     ]
 }
@@ -154,6 +156,24 @@ pub fn run(ctx: &mut Ctx) {
             ] {
                 if form != n {
                     one(ctx, &form, "padded-forms-refused", false);
+                }
+            }
+        }
+        // long strings that begin with a name (length arithmetic that wraps at 2^8 / 2^16), and
+        // known names joined by characters that are legal in a type
+        for t in ALL_TYPES {
+            let n = r8(t);
+            for pad in ["x", ".", "1", "-"] {
+                for extra in (250usize..=262).chain(506..=518).chain(65_530..=65_540) {
+                    one(ctx, &format!("{n}{}", pad.repeat(extra)), "long-strings-with-name-prefix", false);
+                    one(ctx, &format!("{}{}", n.to_uppercase(), pad.repeat(extra)), "long-strings-with-name-prefix", false);
+                }
+            }
+            for u in ALL_TYPES {
+                for sep in [".", "-", "+", "..", "0"] {
+                    one(ctx, &format!("{n}{sep}{}", r8(u)), "joined-names", false);
+                    one(ctx, &format!("{n}{sep}{}{sep}{n}", r8(u)), "joined-names", false);
+                    one(ctx, &format!("{sep}{n}{sep}"), "joined-names", false);
                 }
             }
         }
